@@ -840,11 +840,16 @@ Definition enc_text (e : env) (st : est) (parent : option tagname) (content : by
 (* ------------------------------------------------------------------ *)
 (* header                                                               *)
 
-(* wbxml_fill_header; textual_publicid is never set on these paths *)
+(* wbxml_fill_header; textual_publicid is never set on these paths.
+   An anonymous document carries the public id 1 ('unknown') whatever the language (/repo 16878ac) and no id string;
+   WBXML 1.0 (version enum 0) has no charset field (/repo f5bdeab). *)
+Definition header_public_id (e : env) : N := if e_anonymous e then 1 else bl_pub_num (e_lang e).
+Definition header_charset (e : env) : bytes := if e_version e =? 0 then [] else mb_write 106.
+
 Definition fill_header (e : env) (st : est) : bytes :=
   let l := e_lang e in
   let pid : option bytes :=
-      if (bl_pub_num l =? 1) && negb (e_anonymous e)
+      if (header_public_id e =? 1) && negb (e_anonymous e)
       then match bl_pub_text l with Some s => Some s | None => None end
       else None in
   let '(idx, tbl, tlen) :=
@@ -855,8 +860,8 @@ Definition fill_header (e : env) (st : est) : bytes :=
       | None => (0, strtbl st, strtbl_len st)
       end in
   [u8 (e_version e)]
-    ++ (match pid with Some _ => [0] ++ mb_write idx | None => mb_write (bl_pub_num l) end)
-    ++ mb_write 106 ++ mb_write tlen
+    ++ (match pid with Some _ => [0] ++ mb_write idx | None => mb_write (header_public_id e) end)
+    ++ header_charset e ++ mb_write tlen
     ++ (if e_use_strtbl e then strtbl_construct tbl
         else match pid with Some p => p ++ [0] | None => [] end).
 
